@@ -78,9 +78,21 @@ func (dv *Router) prefixDataFetch(nodeId enc.Name) {
 		name = append(name, enc.NewSequenceNumComponent(router.Known+1))
 	}
 
+	// If the Interest cannot be made or sent there will be no callback:
+	// stop fetching here (or nothing would ever fetch for this node again)
+	// and retry later, as after a failed fetch.
+	abort := func() {
+		router.Fetching = false
+		go func() {
+			time.Sleep(2 * time.Second)
+			dv.prefixDataFetch(nodeId)
+		}()
+	}
+
 	interest, err := dv.engine.Spec().MakeInterest(name, cfg, nil, nil)
 	if err != nil {
 		log.Warnf("prefixDataFetch: failed to make Interest: %+v", err)
+		abort()
 		return
 	}
 
@@ -113,6 +125,7 @@ func (dv *Router) prefixDataFetch(nodeId enc.Name) {
 	})
 	if err != nil {
 		log.Warnf("prefixDataFetch: failed to express Interest: %+v", err)
+		abort()
 		return
 	}
 }
